@@ -98,6 +98,9 @@ func parseSignature(sig []byte) ([]byte, []byte, error) {
 		!inner.Empty() {
 		return nil, nil, errors.New("invalid ASN.1")
 	}
+	if len(sBytes) == 0 {
+		return nil, nil, errors.New("sm9: invalid point format")
+	}
 	if sBytes[0] != 4 {
 		return nil, nil, errors.New("sm9: invalid point format")
 	}
